@@ -26,8 +26,6 @@ Notation "'ido' x <- a ; b" := (ibind a (fun x => b)) (at level 200, x pattern, 
 Definition dec_of_pdec (d : pdec) : dec :=
   {| d_neg := neg d; d_mag := of_dec (Z.of_N (mant d)) (scale d) |}.
 
-(* primitive::pretty_decimal's token: [0-9,.-]+ *)
-Definition is_num_char (c : N) : bool := is_digit c || (c =? 45)%N || (c =? 44)%N || (c =? 46)%N.
 (* NON_COMMODITY_CHARS = " \t\r\n0123456789.,;:?!-+*/^&|=<>[](){}@" *)
 Definition non_commodity (c : N) : bool :=
   existsb (N.eqb c)
@@ -41,9 +39,19 @@ Fixpoint span (p : N -> bool) (l : str) : str * str :=
   end.
 Definition space0 (l : str) : str := snd (span is_sp l).
 
+(* primitive::pretty_decimal's token: (opt(one_of('-')), take_while(0.., [0-9,.])).take(), verified
+   non-empty: a minus sign belongs to the number only as its first character (/repo f8c7ec3), so
+   `12.50-` is the number 12.50 followed by `-` *)
+Definition is_num_char (c : N) : bool := is_digit c || (c =? 44)%N || (c =? 46)%N.
+Definition num_token (l : str) : str * str :=
+  match l with
+  | 45%N :: r => let '(a, b) := span is_num_char r in (45%N :: a, b)
+  | _ => span is_num_char l
+  end.
+
 (* terminated(pretty_decimal, space0) *)
 Definition dec_tok (l : str) : option (pdec * str) :=
-  let '(tok, rest) := span is_num_char l in
+  let '(tok, rest) := num_token l in
   match tok with
   | [] => None
   | _ => match scan tok with SOk d => Some (d, space0 rest) | SErr _ => None end
@@ -51,7 +59,9 @@ Definition dec_tok (l : str) : option (pdec * str) :=
 (* terminated(commodity, space0): never fails *)
 Definition comm_tok (l : str) : str := space0 (snd (span (fun c => negb (non_commodity c)) l)).
 
-(* unary_amount, parsed to the end of the input; the commodity is discarded by the caller.
+(* unary_amount under Parser::parse (parse_single): the whole cell must be consumed, so a cell that
+   merely starts with a number (6'540.35, 1 234.56, 12.50-, 5 USD EUR) is a parse error; the
+   commodity is discarded by the caller.
    permutation((decimal, commodity)) tries the decimal first in every round. *)
 Definition unary_amount (l : str) : option dec :=
   let '(negate, l1) := match l with 45%N :: r => (true, r) | _ => (false, l) end in
@@ -323,7 +333,7 @@ Section Import.
 
   (* the rules applied to the record *)
   Definition row_fragment (cfg : entry P) (d : row_data) : frag :=
-    extract csv_matches (e_rewrite cfg)
+    extract csv_matches (compile (e_rewrite cfg))
             {| rc_payee := rd_payee d; rc_category := rd_category d;
                rc_secondary_commodity := rd_secondary_commodity d |}.
 
